@@ -101,6 +101,7 @@ class Operator:
         from kopf._core.engines import indexing
         from kopf._core.reactor import inventory
         sim = self.sim
+        sim.recorder.muted.discard(self.name)        # a new incarnation under the name of a killed one is heard again
         self._install_login()
         self.registry._verif_ops['current'] = self
         self.loop = sim.world.new_loop(self.name)
